@@ -82,6 +82,15 @@ Definition clocks_tick (dt : N) (c : clocks) : clocks :=
   {| k_sw := swc_tick dt (k_sw c); k_isl := slc_tick dt (k_isl c); k_gsl := slc_tick dt (k_gsl c);
      k_wsw := swc_tick dt (k_wsw c); k_dsl := slc_tick dt (k_dsl c); k_dwsw := swc_tick dt (k_dwsw c) |}.
 
+(* the grace sleep and the waiting stopwatch exist only inside terminate_child; the delay clocks
+   belong to the retry-delay loop (ticked by [dstep]) *)
+Definition unit_tick (terminating : bool) (dt : N) (c : clocks) : clocks :=
+  {| k_sw := swc_tick dt (k_sw c); k_isl := slc_tick dt (k_isl c);
+     k_gsl := if terminating then slc_tick dt (k_gsl c) else k_gsl c;
+     k_wsw := if terminating then swc_tick dt (k_wsw c) else k_wsw c;
+     k_dsl := k_dsl c; k_dwsw := k_dwsw c |}.
+Definition is_terminating (p : phase) : bool := match p with PTerminating _ => true | _ => false end.
+
 (* job_control_child only signals while the child has not been reaped *)
 Definition exec_pop (reaped : bool) (c : clocks) (o : pop) : outcome (clocks * list uout) :=
   match o with
@@ -201,7 +210,7 @@ Definition ucore (tbl : ptable) (cfg : ucfg) (s : ustate) (e : aevent)
   : outcome (ustate * list uout) :=
   match e with
   | ATick dt =>
-      Ok (with_lsl (with_ck s (clocks_tick dt (ck s)))
+      Ok (with_lsl (with_ck s (unit_tick (is_terminating (ph s)) dt (ck s)))
                    (match ph s with PExiting => slc_tick dt (lsl s) | _ => lsl s end), [])
   | _ =>
   match ph s with
